@@ -32,6 +32,13 @@ Step(e) ==
                         ELSE [acc |-> acc, lk |-> lk]
                IN acc' = r.acc /\ lk' = r.lk
             /\ UNCHANGED <<m, ram, bad>>
+      \* a file the machine rejects is not applied: "for any history" the map is a function of the port writes alone
+      [] e.ev = "badload" ->
+            /\ IF e.accepted
+               THEN PrintT(<<"MISMATCH", l, "read", [addr |-> -1, got |-> "a file of the other model / a truncated file was accepted", peek |-> 0,
+                                                      want |-> "rejected", acc |-> acc, lk |-> lk, m |-> m]>>) /\ bad' = bad + 1
+               ELSE bad' = bad
+            /\ UNCHANGED <<m, acc, lk, ram>>
       [] e.ev = "wr" ->
             /\ LET pg == StmtMap(m, acc, Window(e.addr)) IN
                ram' = IF pg[1] = "ram" THEN (Cell(pg[2], Offset(e.addr)) :> e.val) @@ ram ELSE ram
